@@ -194,7 +194,13 @@ func (x Int8) Value() interface{} {
 }
 
 func (x Int8) Compare(y Comparable) int {
-	return int(int8(x) - y.Value().(int8))
+	a, b := int8(x), y.Value().(int8)
+	if a < b {
+		return -1
+	} else if a > b {
+		return 1
+	}
+	return 0
 }
 
 func (x Int8) Int64() int64 {
@@ -242,10 +248,10 @@ func (x UInt8) Value() interface{} {
 }
 
 func (x UInt8) Compare(b Comparable) int {
-	c := uint8(x) - b.Value().(uint8)
-	if c < 0 {
+	x1, y1 := uint8(x), b.Value().(uint8)
+	if x1 < y1 {
 		return -1
-	} else if c > 0 {
+	} else if x1 > y1 {
 		return 1
 	}
 	return 0
@@ -296,7 +302,13 @@ func (x Int16) Value() interface{} {
 }
 
 func (x Int16) Compare(y Comparable) int {
-	return int(int16(x) - y.Value().(int16))
+	a, b := int16(x), y.Value().(int16)
+	if a < b {
+		return -1
+	} else if a > b {
+		return 1
+	}
+	return 0
 }
 
 func (x Int16) Int64() int64 {
@@ -344,10 +356,10 @@ func (x UInt16) Value() interface{} {
 }
 
 func (x UInt16) Compare(b Comparable) int {
-	c := uint16(x) - b.Value().(uint16)
-	if c < 0 {
+	x1, y1 := uint16(x), b.Value().(uint16)
+	if x1 < y1 {
 		return -1
-	} else if c > 0 {
+	} else if x1 > y1 {
 		return 1
 	}
 	return 0
@@ -446,10 +458,10 @@ func (x UInt32) Value() interface{} {
 }
 
 func (x UInt32) Compare(b Comparable) int {
-	c := uint(x) - b.Value().(uint)
-	if c < 0 {
+	x1, y1 := uint(x), b.Value().(uint)
+	if x1 < y1 {
 		return -1
-	} else if c > 0 {
+	} else if x1 > y1 {
 		return 1
 	}
 	return 0
@@ -500,10 +512,10 @@ func (x Int64) Value() interface{} {
 }
 
 func (x Int64) Compare(b Comparable) int {
-	c := int64(x) - b.Value().(int64)
-	if c < 0 {
+	x1, y1 := int64(x), b.Value().(int64)
+	if x1 < y1 {
 		return -1
-	} else if c > 0 {
+	} else if x1 > y1 {
 		return 1
 	}
 	return 0
@@ -554,10 +566,10 @@ func (x UInt64) Value() interface{} {
 }
 
 func (x UInt64) Compare(b Comparable) int {
-	c := uint64(x) - b.Value().(uint64)
-	if c < 0 {
+	x1, y1 := uint64(x), b.Value().(uint64)
+	if x1 < y1 {
 		return -1
-	} else if c > 0 {
+	} else if x1 > y1 {
 		return 1
 	}
 	return 0
